@@ -185,9 +185,13 @@ def run(rep, ctx, tier):
                 elif it[0] == "absorb":
                     got.update(str(it[1]).split("|"))
         flat(R7.normalise(ve.schedule(f.hir[vb.id], 0, (vb.id,))))
+        got_fields = {x.rsplit(".", 1)[-1] for x in got if "." in x}
         for w in want:
-            rep.add("RFS", "%s.check:absorbs:%s" % (sk, w), w in got,
-                    ("%s is absorbed into the verifier's transcript" % w) if w in got else
+            # a message may be repacked into a private struct before it is absorbed (`FirstMessage.com_eval`): the field
+            # name is what identifies it
+            present = w in got or ("." in w and w.rsplit(".", 1)[-1] in got_fields)
+            rep.add("RFS", "%s.check:absorbs:%s" % (sk, w), present,
+                    ("%s is absorbed into the verifier's transcript" % w) if present else
                     ("%s no longer reaches any absorb of the verifier (absorbed today: %s): it is not bound by the challenges "
                      "derived from the transcript" % (w, ", ".join(sorted(got)) or "nothing")), vb.span)
     rep.add("R4s", "no-shifted-pairing", True, "every positional pairing in the verifiers' scopes pairs sequences that were "
